@@ -21,6 +21,18 @@ CHECKS = {
    technique="TLA+ BrokerCtl.tla (SameRequest, AtMostOneIO) model-checked with TLC; every admission order of the halves of 2 /io requests replayed on the real Broker through gates",
    text="TLC checks SameRequest / AtMostOneIO / NoMixIOUni over every interleaving of two /io requests (four halves) with or without unidirectional attempts, and the harness replays every edge on a real Broker, ordering the halves with the admit gates and checking by its own accounting which request each attached half belongs to.",
    note="Trusted: TLC, gate hooks. 3-4 simultaneous /io requests are covered by simulation in the thorough tier only."),
+ "C02": dict(level="model_checking", design="DESIGN.md §6 C02, §4.1, §5.3",
+   technique="TLA+ BrokerIn.tla model-checked with TLC (safety + liveness); traces of the real proxyIn (gated writer, fault injection) validated by TLC against BrokerInTrace.tla",
+   text="BrokerIn models operator lines, successive shells, writer kinds (FlushError / http.Flusher / plain), a possible failure at every write and flush, cancellation and closing of the input channel; TLC proves GapFree, LostOnlyOnOwnError, FlushBeforeNextTake, Prompt. Schedules covering every edge of that graph are executed on a real Broker with harness-owned writers whose calls park until the schedule decides their result; every recorded trace (enter / write / flush / log / release events) must be a behaviour of the specification.",
+   note="Trusted: TLC, harness writers, content-to-line mapping. The live HTTPS promptness leg is in the server-level checks."),
+ "C08": dict(level="fault_enumeration", design="DESIGN.md §6 C08, §4.3",
+   technique="TLA+ Identity.tla model-checked with TLC; every history of its graph and every crash point (all prefix lengths of the cache file) replayed on real files through sstls.Listen and a TLS handshake",
+   text="Identity.tla states StableKey, TornNeverSilentlyDifferent, NeverRewritten, MissingRegenerates over histories of start / stop / crash-during-save / damage / delete; each history is replayed on real files: the served key is observed by a real TLS handshake, the file's bytes, inode, mtime and modes are compared before and after every run, and every prefix length of a complete cache file is tried as a crash point.",
+   note="Trusted: crypto/tls, crypto/x509, SHA-256. A crash is modelled by the prefix it leaves behind. The real-binary leg (flag wiring, exit status) is part of C20."),
+ "C11": dict(level="model_checking", design="DESIGN.md §6 C11, §4.1, §5.3",
+   technique="TLA+ BrokerIn/BrokerOut/BrokerCtl log-history invariants model-checked with TLC; the slog records of real executions are trace events validated by TLC, connect/refusal records compared per attempt in the gated replay",
+   text="The log is a history variable of the broker specifications (LogMatchesDelivery, LogMatchesForwarded, NothingDroppedLogged); a capturing slog.Handler turns every Shell I/O record of a real execution into a trace event that TLC must be able to place exactly after the corresponding delivery, and the control replay checks one connect and one disconnect record per accepted stream and one error record with a true reason per refused stream.",
+   note="Trusted: TLC, the capturing handler. The JSON framing of the real -log file is checked in the end-to-end leg."),
 }
 
 PENDING = {}
